@@ -34,6 +34,8 @@ var truthLeaves = map[string]tvLeaf{
 	"true": {true, "bool"}, "false": {false, "bool"},
 	"0": {false, "number"}, "(0*-1)": {false, "number"}, "0.0": {false, "number"}, "0e3": {false, "number"}, "fnan2": {false, "number"},
 	"finf": {true, "number"}, "fninf": {true, "number"}, "1": {true, "number"}, "(-1)": {true, "number"}, "0.5": {true, "number"}, ".5": {true, "number"}, ".0": {false, "number"}, "1.50": {true, "number"}, "1e-30": {true, "number"}, "izero": {false, "number"}, "fzero": {false, "number"}, "fnan": {false, "number"},
+	// magnitudes no binary float holds: non-zero is truthy however small, zero is falsy however it is scaled
+	"1e-400": {true, "number"}, "1e-324": {true, "number"}, "3E-5000": {true, "number"}, "1e400": {true, "number"}, "0e-400": {false, "number"}, "0.000e+999": {false, "number"},
 	"''": {false, "string"}, "es": {false, "string"}, "'0'": {true, "string"}, "' '": {true, "string"}, "'a'": {true, "string"}, "'false'": {true, "string"}, "'x'": {true, "string"},
 	"this.izero": {false, "number"}, "this.es": {false, "string"}, "this.m": {true, "other"},
 	"[]": {true, "other"}, "[0]": {true, "other"}, "[1]": {true, "other"}, "m": {true, "other"}, "em": {true, "other"}, "st": {true, "other"}, "t": {true, "other"}, "len": {true, "other"}, "fn0": {true, "other"}, "earr": {true, "other"}, "t2": {true, "other"}, "t0": {true, "other"},
